@@ -28,12 +28,14 @@ COMPRESSOR_NAME = {"zlib": "vtkZLibDataCompressor", "lz4": "vtkLZ4DataCompressor
 
 class Cfg:
     def __init__(self, fmt="ascii", compressor=None, block_size=32768, header_type="UInt32", byte_order="<",
-                 header_separate=False, version="1.0", omit_header_type=False):
+                 header_separate=False, version="1.0", omit_header_type=False, omit_scalar_ncomp=False):
         assert fmt in ("ascii", "binary", "appended-base64", "appended-raw")
         self.fmt, self.compressor, self.block_size = fmt, compressor, block_size
         self.header_type, self.byte_order, self.header_separate = header_type, byte_order, header_separate
         # the VTKFile attributes: `version` is free; header_type may be left out, which means UInt32 (the format's default)
         self.version, self.omit_header_type = version, bool(omit_header_type) and header_type == "UInt32"
+        # NumberOfComponents may be left out for one-component arrays (the format's default is 1)
+        self.omit_scalar_ncomp = bool(omit_scalar_ncomp)
 
     def key(self):
         return (f"{self.fmt}/{self.compressor}/bs{self.block_size}/{self.header_type}/"
@@ -42,7 +44,7 @@ class Cfg:
     def as_dict(self):
         return dict(fmt=self.fmt, compressor=self.compressor, block_size=self.block_size, header_type=self.header_type,
                     byte_order=self.byte_order, header_separate=self.header_separate, version=self.version,
-                    omit_header_type=self.omit_header_type)
+                    omit_header_type=self.omit_header_type, omit_scalar_ncomp=self.omit_scalar_ncomp)
 
 
 def raw_bytes(vtk_type, values, byte_order):
@@ -109,7 +111,8 @@ class Writer:
 
     def data_array(self, name, vtk_type, ncomp, values, indent="        ", extra=""):
         cfg = self.cfg
-        attrs = f'type="{vtk_type}" Name="{name}" NumberOfComponents="{ncomp}"{extra}'
+        nc_attr = "" if (ncomp == 1 and getattr(cfg, "omit_scalar_ncomp", False)) else f' NumberOfComponents="{ncomp}"'
+        attrs = f'type="{vtk_type}" Name="{name}"{nc_attr}{extra}'
         if cfg.fmt == "ascii":
             return f'{indent}<DataArray {attrs} format="ascii">\n{indent}  {ascii_text(vtk_type, values)}\n{indent}</DataArray>\n'
         payload = raw_bytes(vtk_type, values, cfg.byte_order)
